@@ -82,3 +82,52 @@ def gen(rng: random.Random, uni: qgen.Universe, depth: int):
     if src.startswith("(") and src.endswith(")"):
         src = src[1:-1]
     return f"ds.Select(lambda e: {src})", sx, uses
+
+
+def gen_vec(rng, uni: qgen.Universe, ev: str, uses, nvar):
+    name = rng.choice(list(uni.colls))
+    bank = rng.choice(["b1", "b2"])
+    uses.append((name, bank))
+    ct, _ = uni.colls[name]
+    arrow = uni.backend == "atlas"
+    src = f'{ev}.{name}("{bank}")'
+    preds = []
+    if rng.random() < 0.5:
+        nvar[0] += 1
+        v = f"x{nvar[0]}"
+        p, sp = gen_pred(rng, v, rng.choice([0, 1]))
+        src += f".Where(lambda {v}: {p})"
+        preds.append(sp)
+    nvar[0] += 1
+    v = f"y{nvar[0]}"
+    b, sb = gen_pa(rng, v, rng.choice([0, 1, 2]))
+    return src + f".Select(lambda {v}: {b})", ["vec", name.lower(), ct, bank, arrow, preds, sb]
+
+
+def gen_row(rng: random.Random, uni: qgen.Universe, depth: int):
+    """-> (query source, list of (name, column sexp), uses).  Terminal forms: bare, tuple, list, dict."""
+    uses: List[Tuple[str, str]] = []
+    nvar = [0]
+    n = rng.choice([1, 1, 2, 3])
+    cols = []
+    for _ in range(n):
+        if rng.random() < 0.5:
+            s, sx = gen_ex(rng, uni, "e", depth, uses, nvar, top=True, cmp_ok=True)
+            if s.startswith("(") and s.endswith(")") and sx[0] == "bin":
+                pass
+            cols.append((s, ["scalar", sx]))
+        else:
+            s, sx = gen_vec(rng, uni, "e", uses, nvar)
+            cols.append((s, sx))
+    form = rng.choice(["tuple", "list", "dict"]) if n > 1 else rng.choice(["bare", "dict", "tuple"])
+    if form == "bare":
+        names = ["col1"]
+        body = cols[0][0]
+    elif form == "dict":
+        names = ["a", "bb", "c3x"][:n]
+        body = "{" + ", ".join(f'"{nm}": {c[0]}' for nm, c in zip(names, cols)) + "}"
+    else:
+        names = [f"col{i}" for i in range(n)]
+        inner = ", ".join(c[0] for c in cols)
+        body = f"({inner},)" if (form == "tuple" and n == 1) else (f"({inner})" if form == "tuple" else f"[{inner}]")
+    return f"ds.Select(lambda e: {body})", [[nm, c[1]] for nm, c in zip(names, cols)], uses
